@@ -170,6 +170,20 @@ func (r *libRec) schema(p int, idx *updog.Index) {
 		cols = append(cols, []any{r.dict.ColRank(c.Name), vs})
 	}
 	r.out.Emit(map[string]any{"ev": "Schema", "p": p, "cols": cols, "fh": r.fh(p)})
+	// the returned Schema is the caller's: re-order and overwrite it; the next GetSchema must not notice
+	for i, j := 0, len(s.Columns)-1; i < j; i, j = i+1, j-1 {
+		s.Columns[i], s.Columns[j] = s.Columns[j], s.Columns[i]
+	}
+	for i := range s.Columns {
+		s.Columns[i].Name = "scribbled"
+		vs := s.Columns[i].Values
+		for a, b := 0, len(vs)-1; a < b; a, b = a+1, b-1 {
+			vs[a], vs[b] = vs[b], vs[a]
+		}
+		for k := range vs {
+			vs[k].Value = "by the caller"
+		}
+	}
 }
 
 func (r *libRec) exec(p int, idx *updog.Index, q vx.Query) vx.Res {
@@ -445,6 +459,7 @@ func (r *libRec) scenarioSmall(i int) {
 				r.exec(1, idx, vx.Query{E: &vx.Expr{Op: "or", Es: []*vx.Expr{l, {Op: "not", E: l}}}, GB: []int{c}})
 			}
 		}
+		r.schema(1, idx)
 		r.close(1, idx)
 		mode = modes[1-indexOf(modes, mode)]
 	}
